@@ -673,8 +673,21 @@ func (fr *Frame) enterCutLoop(n *unode, l *Loop, s *State, g *Term, phis []*ssa.
 	fr.havocTargets(s, pre, targets, g)
 	// ghost counters (effect counters of callee contracts, atcall counters) may be incremented by the body: they are
 	// arbitrary at the loop head, like everything the loop writes; invariants say what is known about them
+	counters := map[string]bool{} // ghosts declared with an initial value; rigid ghosts (no initial value) never change
+	for top := fr; top != nil; top = top.parent {
+		if top.contract != nil {
+			for _, gcl := range top.contract.Ghosts {
+				if gcl.Text != "" {
+					counters[gcl.Ghost] = true
+				}
+			}
+		}
+		if top.top {
+			break
+		}
+	}
 	for _, name := range sortedKeys(s.ghost) {
-		if v := s.ghost[name]; name != "$clock" && bvWidth(v.sort) > 0 {
+		if v := s.ghost[name]; counters[name] && bvWidth(v.sort) > 0 {
 			s.ghost[name] = c.Fresh("loop_ghost_"+name, v.sort)
 		}
 	}
